@@ -331,7 +331,11 @@ func runSeq(out *lib.Out, pv *proto.Version, ops []op, kind string) {
 	term := lib.App("Seq", idTable(pv.Protocol), lib.ListOf(ops, op.coq), lib.List(ress), lib.List(lens), lib.List(closeds),
 		lib.Bytes(wire), lib.Bool(eof))
 	nt := nPO > 0 && nSet > 0
-	out.Add(term, map[string]any{"kind": kind, "protocol": pv.Protocol, "ops": ops, "results": ress, "wire_hex": trunc(hex.EncodeToString(wire), 400), "closed": closedEnd},
+	dops, dres := ops, ress
+	if len(dops) > 80 {
+		dops, dres = dops[:80], dres[:80]
+	}
+	out.Add(term, map[string]any{"kind": kind, "protocol": pv.Protocol, "n_ops": len(ops), "ops_first80": dops, "results_first80": dres, "wire_hex": trunc(hex.EncodeToString(wire), 400), "closed": closedEnd},
 		nt, "seq", "kind="+kind, fmt.Sprintf("proto=%d", pv.Protocol), bucket("ops", len(ops)), "closed="+lib.Bool(closedEnd))
 }
 
@@ -607,7 +611,7 @@ func main() {
 	out.Rule = "sequential histories of 3..70 calls over {WritePacket(title.Times|BossBar), WritePacket(KeepAlive|plugin.Message), SetState|SetOutboundState(Config|Play)} on protocols 1.20.2..1.21.11 with unique tags, mostly ending back in PLAY; boundary histories holding exactly 1023/1024/1025/1026 play-only packets in CONFIG; stress scenarios with 1..4 writer goroutines (20..100 packets each, 0..40% config-valid) racing one goroutine that flips Config/Play until the writers are done, observed after a final SetState(Play), each in a child process. Distinct = distinct Coq term; non-trivial = at least one play-only write and one state change (seq) / at least one play-only packet (stress)."
 
 	// sequential
-	nSeq := f.Count(90)
+	nSeq := f.Count(72)
 	for i := 0; i < nSeq; i++ {
 		r := rng.Fork()
 		pv := protocols[r.Intn(len(protocols))]
